@@ -65,6 +65,7 @@ def observe (s : Sys) : String :=
   let pend := valUniverse.flatMap (fun v => ([0, 1, 2] : List Denom).filterMap (fun dn =>
     if c.pending v dn = 0 then none else some s!"{v}.{dn}:{c.pending v dn}"))
   let nored := valUniverse.filterMap (fun v => if c.noRedelegate v then some (toString v) else none)
+  let nound := valUniverse.filterMap (fun v => if c.noUndelegate v then some (toString v) else none)
   String.intercalate " " [
     s!"hub.raw={hubStateS h}", s!"hub.q={hubQ}",
     s!"batch={h.batchId},{h.reqB},{h.reqS}",
@@ -76,7 +77,7 @@ def observe (s : Sys) : String :=
     s!"rw={r.globalIndex},{r.totalBalance},{r.prevRewardBalance};cfg={r.owner},{r.newOwner},{r.hub},{r.rewardDenom},{r.swapContract},[{joinC (r.swapDenoms.map toString)}];h[{joinC holders}]",
     s!"disp={d.owner},{d.newOwner},{d.hub},{d.rewardContract},{d.stDenom},{d.bDenom},{d.keeper},{d.keeperRate},{d.swapContract},{d.oracle},[{joinC (d.swapDenoms.map toString)}]",
     s!"reg={s.reg.owner},{s.reg.newOwner},{s.reg.hub};[{joinC regQ}]",
-    s!"chain={c.time},{c.height};bank[{joinC bank}];deleg[{joinC deleg}];unb[{String.intercalate "" unb}];pend[{joinC pend}];wa={c.withdrawAddr};nored[{joinC nored}]"]
+    s!"chain={c.time},{c.height};bank[{joinC bank}];deleg[{joinC deleg}];unb[{String.intercalate "" unb}];pend[{joinC pend}];wa={c.withdrawAddr};nored[{joinC nored}];noundel[{joinC nound}]"]
 
 /-! ### parsing -/
 
@@ -225,6 +226,9 @@ def step (s : Sys) (line : String) : Sys × String :=
     | _ => bad
   | ["env", "noredel", v, b] => match pNat v, pBool b with
     | some v, some b => let s' := s.env (.blockRedelegation v b); (s', "ok | " ++ observe s')
+    | _, _ => bad
+  | ["env", "noundel", v, b] => match pNat v, pBool b with
+    | some v, some b => let s' := s.env (.blockUndelegation v b); (s', "ok | " ++ observe s')
     | _, _ => bad
   | ["env", "oracle", b, p] => match pBool b, pNat p with
     | some b, some p => let s' := s.env (.oracle b p); (s', "ok | " ++ observe s')
